@@ -84,10 +84,10 @@ func init() {
 		})
 	clusterCheck("C07",
 		func() []Unit {
-			return append([]Unit{{Name: "enum-nextconfiguration", Enum: enumC07}}, scUnits(1, "member", "member-race", "member-trunc5", "member-sor", "transfer", "rcl3-after")...)
+			return append([]Unit{{Name: "enum-nextconfiguration", Enum: enumC07}}, scUnits(1, "member", "member-race", "member-trunc5", "member-trunc5-snap", "member-sor", "transfer", "rcl3-after")...)
 		},
 		func() []Unit {
-			return append([]Unit{{Name: "enum-nextconfiguration", Enum: enumC07}}, scUnits(2, "member", "member-race", "member-trunc5", "member-sor", "transfer", "crash3", "rcl3-after")...)
+			return append([]Unit{{Name: "enum-nextconfiguration", Enum: enumC07}}, scUnits(2, "member", "member-race", "member-trunc5", "member-trunc5-snap", "member-sor", "transfer", "crash3", "rcl3-after")...)
 		})
 	clusterCheck("C08",
 		func() []Unit {
@@ -146,7 +146,7 @@ func init() {
 				us = append(us, scUnit("shutdown-"+k+"-batch", b))
 			}
 		}
-		us = append(us, scUnit("stepdown-calls", b), scUnit("verify-deposed", 1), scUnit("rcl1-after", 1), scUnit("rcl3-after", 1))
+		us = append(us, scUnit("stepdown-calls", b), scUnit("verify-deposed", 1), scUnit("rcl1-after", 1), scUnit("rcl3-after", 1), scUnit("restore3-inflight", 1))
 		if tier == "thorough" {
 			us = append(us, scUnits(1, "write3", "crash3", "transfer", "member")...)
 		}
@@ -166,10 +166,10 @@ func init() {
 		func() []Unit { return scUnits(2, "notify3") })
 	clusterCheck("C09",
 		func() []Unit {
-			return scUnits(1, "verify-nonvoter", "verify3", "verify5-pair", "verify-stale-ack", "verify-deposed")
+			return scUnits(1, "verify-nonvoter", "verify3", "verify5-pair", "verify-stale-ack", "verify-deposed", "verify-addvoter")
 		},
 		func() []Unit {
-			return scUnits(2, "verify-nonvoter", "verify3", "verify5-pair", "verify-stale-ack", "verify-deposed")
+			return scUnits(2, "verify-nonvoter", "verify3", "verify5-pair", "verify-stale-ack", "verify-deposed", "verify-addvoter")
 		})
 	clusterCheck("C20",
 		func() []Unit {
